@@ -7,6 +7,8 @@ written in the template.  Nothing else of the verified functions is hand-written
 
 Directives
   //@ include <file>                      textual include from contracts/verus/
+  //@ layout <name>                       spec decoder/encoder generated from contracts/layouts/<name>.json
+  //@ stub <file>                         external_body stub from contracts/verus/stubs (shared with the prover unit)
   //@ type  <src> <modpath|-> <Name>      struct/enum definition, attributes+comments dropped
   //@ const <src> <modpath|-> <Name>
   //@ fn    <src> <modpath|-> /<impl header regex>/ <fn name>
@@ -58,12 +60,10 @@ RULES = {
            (re.compile(r"\b(u8|u16|u32|u64|u128|i8|i16|i32|i64|i128|f64)::parse\("), r"vf_parse_\1("),
            (re.compile(r"<Vec<u8>>::parse(_be)?\("), r"vf_parse_vec_u8(")],
     # R8: `<T>::parse_be` / `<T>::parse` path used as a *value* stays as is; `Self::parse_be` too.
-    # R9: nom-derive "Value" closures `({ |__i__| Ok((__i__, E)) })(i)?` get the strongest
-    #     postcondition of their own one-expression body attached (checked by Verus against it).
-    "R9": [(re.compile(r"\|__i__\|\s*Ok\(\(__i__,\s*(.*?)\)\)\s*\}\)\(i\)\?", re.S),
-            r"|__i__: &'nom [u8]| -> (__o__: nom::IResult<&'nom [u8], _>) "
-            r"ensures __o__ == Ok::<(&'nom [u8], _), nom::Err<nom::error::Error<&'nom [u8]>>>((__i__, \1)) "
-            r"{ Ok((__i__, \1)) } })(i)?")],
+    # R9: nom-derive "Value = E" fields expand to an immediately applied, capture-only closure
+    #     `({ |__i__| Ok((__i__, E)) })(i)?`; it is beta-reduced to `(i, E)` (Verus cannot infer the
+    #     closure's result type/ensures).  Pure re-bracketing: the closure has no effects and never fails.
+    "R9": [(re.compile(r"\(\{\s*\|__i__\|\s*Ok\(\(__i__,\s*(.*?)\)\)\s*\}\)\(i\)\?", re.S), r"(i, \1)")],
     # R10: `e.to_string()` on a nom error -> inherent shim method of the same name (no rewrite needed);
     #      `make_error(i, K)` is nom's generic constructor == Error::new(i, K) for the default error type.
     "R10": [(re.compile(r"nom::error::make_error\("), "nom::error::Error::new(")],
@@ -363,6 +363,33 @@ class Extractor:
                 self.meta.setdefault("opaque_statements", []).append(
                     {"fn": fname, "text": " ".join(stmt.split()),
                      "sha256": hashlib.sha256(stmt.encode()).hexdigest()[:16], "stub": val.strip()})
+        for key, val in opts:
+            if key == "track":
+                # ghost offset tracking for nom-derive straight-line parsers: around every
+                # `let (i, X) = <parser>(i)?;` record how far `i` has advanced inside `orig`
+                # (spec-only insertions; explicit lemma calls instead of a quadratic broadcast lemma)
+                orig = val.strip()
+                mk = mask(body)
+                first = True
+                for mm in re.finditer(r"let\s*\(\s*i\s*,", mk):
+                    k = mm.start()
+                    depth = 0
+                    while True:
+                        ch = mk[k]
+                        if ch in "([{":
+                            depth += 1
+                        elif ch in ")]}":
+                            depth -= 1
+                        elif ch == ";" and depth == 0:
+                            break
+                        k += 1
+                    pre = "let ghost __p = i@; "
+                    if first:
+                        pre = "let ghost mut __off: int = 0; proof { assert(i@ =~= %s@.subrange(0, %s@.len() as int)); } " % (orig, orig) + pre
+                        first = False
+                    edits.append((mm.start(), mm.start(), pre))
+                    edits.append((k + 1, k + 1, " proof { lemma_track(%s@, __off, __p, i@); __off = __off + (__p.len() - i@.len()); } " % orig))
+                hits["track"] = hits.get("track", 0) + 1
         # overlapping edits are a template error
         edits.sort(key=lambda e: (e[0], e[1]))
         for (a1, b1, _), (a2, b2, _) in zip(edits, edits[1:]):
@@ -406,6 +433,10 @@ class Extractor:
             d = st[3:].strip()
             if d.startswith("include "):
                 out.append(self.expand(os.path.join(CONTRACTS, d.split()[1]), depth + 1))
+            elif d.startswith("layout "):
+                import layouts
+                out.append(layouts.gen(d.split()[1]))
+                self.meta.setdefault("layouts", []).append(d.split()[1])
             elif d.startswith("stub "):
                 out.append(self.do_stub(d.split()[1]))
             elif d.startswith("type "):
